@@ -56,10 +56,18 @@ Section Top.
 
   Lemma pend_init gs : NoDup (map g_name gs) -> Pend sem gs (rev (map bind gs)).
   Proof.
-    intros HN g Hg. apply (tlookup_nodup (rev (map bind gs)) (g_name g) (g_ty g, pend_val sem g)).
-    - rewrite <- map_rev. rewrite map_map. cbn [bind fst]. rewrite map_rev. apply NoDup_rev. exact HN.
-    - apply in_rev. rewrite rev_involutive. apply (in_map bind gs g Hg).
+    intros HN g Hg.
+    assert (E : tlookup (g_name g) (rev (map bind gs)) = Some (g_ty g, pend_val sem g)).
+    { apply (tlookup_nodup (rev (map bind gs)) (g_name g) (g_ty g, pend_val sem g)).
+      - rewrite <- map_rev. rewrite map_map. cbn [bind fst]. rewrite map_rev. apply NoDup_rev. exact HN.
+      - apply in_rev. rewrite rev_involutive. apply (in_map bind gs g Hg). }
+    unfold pend_at. rewrite E. destruct (g_init g); try (eexists; reflexivity); reflexivity.
   Qed.
+
+  Lemma Pend_app_l gs1 gs2 sg : Pend sem (gs1 ++ gs2) sg -> Pend sem gs1 sg.
+  Proof. intros H g Hg. apply H. apply in_or_app. left. exact Hg. Qed.
+  Lemma Pend_app_r gs1 gs2 sg : Pend sem (gs1 ++ gs2) sg -> Pend sem gs2 sg.
+  Proof. intros H g Hg. apply H. apply in_or_app. right. exact Hg. Qed.
 
   Lemma Rel_nil sg : Rel [] [] [] sg.
   Proof. split; [intros x t H; discriminate|intros x H; discriminate]. Qed.
@@ -67,16 +75,31 @@ Section Top.
   Lemma NT_nil : NT [] [].
   Proof. intros x [H|H]; discriminate. Qed.
 
+  Lemma Fr_bound N (a b : SimStoreP.cstore) x t u :
+    Fr N a b -> tlookup x a = Some (t, u) -> exists u', tlookup x b = Some (t, u').
+  Proof.
+    intro H. induction H as [|[k1 [t1 v1]] [k2 [t2 v2]] a b (E1 & E2 & E3) _ IH]; cbn; [discriminate|].
+    cbn in E1, E2. subst k2 t2. destruct (text_eqb x k1); [intros [= <- <-]; eexists; reflexivity|exact IH].
+  Qed.
+
+  (* a default-initialised global stays bound at its type, whatever a pass assigns to it *)
+  Lemma Pend_default_frame gs N sg s1 :
+    (forall g, In g gs -> g_init g = XDefault (g_ty g)) -> Pend sem gs sg -> Fr N sg s1 -> Pend sem gs s1.
+  Proof.
+    intros HD HP HF g Hg. specialize (HP g Hg). unfold pend_at in *. rewrite (HD g Hg) in *.
+    destruct HP as [u Hu]. eapply Fr_bound; eauto.
+  Qed.
+
   Lemma passes_sim fuel body D gf D2 k :
     NT D [] ->
     no_top_tuple D body = true ->
     g_block gf true D [] body = Some D2 ->
     incl (anns_in body) (prog_anns p) -> incl (augs_in body) (prog_augs p) ->
-    forall n rho sg tr, Rel D [] rho sg ->
+    forall n rho sg tr, Rel D [] rho sg -> Pend sem (snd (trm true k true true D body)) sg ->
     ppasses sem augsem fuel n rho body = Some tr ->
     exists F, forall F', (F <= F')%nat -> cpasses sem augsem info F' n sg (fst (trm true k true true D body)) = Some tr.
   Proof.
-    intros HNTD HNT HG Han Hau. induction n as [|n IH]; intros rho sg tr HR HP.
+    intros HNTD HNT HG Han Hau. induction n as [|n IH]; intros rho sg tr HR HPd HP.
     - inversion HP; subst. exists 0%nat. intros; reflexivity.
     - cbn [ppasses] in HP. destruct (pexec fuel rho body) as [[[rho1 e1] o1]|] eqn:E; [|discriminate].
       assert (Ho : o1 = ONormal \/ o1 = OContinue) by (destruct o1; auto; discriminate).
@@ -85,8 +108,10 @@ Section Top.
       clear HP.
       destruct (ppasses sem augsem fuel n rho1 body) as [e2|] eqn:E2; [|discriminate]. inversion HP'; subst tr.
       destruct (sim_all sem augsem info p Hfacts Hinfo fuel body true k true true gf D [] D2 rho sg rho1 e1 o1 HNT HG Han Hau HNTD HR)
-        as (loc & sg1 & F1 & C1 & Fr1 & R1 & _ & _); [intros g []|exact E|].
-      destruct (IH rho1 sg1 e2 R1 E2) as (F2 & C2).
+        as (loc & sg1 & F1 & C1 & Fr1 & R1 & _ & _); [exact HPd|exact E|].
+      assert (HPd1 : Pend sem (snd (trm true k true true D body)) sg1).
+      { eapply Pend_default_frame; [|exact HPd|exact Fr1]. intros g Hg. eapply trl_default. exact Hg. }
+      destruct (IH rho1 sg1 e2 R1 HPd1 E2) as (F2 & C2).
       exists (Nat.max F1 F2). intros F' HF'. cbn [cpasses]. rewrite C1 by lia.
       destruct Ho as [-> | ->]; cbn [oc];
         rewrite (lastn_app_r (length sg) loc sg1) by (eapply Fr_length; eauto); rewrite C2 by lia; reflexivity.
@@ -104,46 +129,64 @@ Section Top.
     unfold transl in HT.
     destruct (tr_block false (bsize (p_pre p)) true 0 st0 (p_pre p)) as [[setup s1]|] eqn:T1; [|discriminate].
     assert (HD0 : Dec [] [] st0) by (intro x; reflexivity).
-    destruct (tr_block_simple false _ _ true true false _ _ _ _ _ _ _ _ eq_refl eq_refl eq_refl G1 HD0 T1) as (S1 & S2 & S3 & _).
+    destruct (tr_block_simple false _ _ true true false _ _ _ _ _ _ _ _ eq_refl eq_refl (fun _ => eq_refl) eq_refl G1 HD0 T1) as (S1 & S2 & S3 & _).
     change (rt false 0) with false in S1, S2. change (tmpc st0) with 0 in S1, S2.
     cbn [st0 globals app] in S2.
     unfold pprog_exec in HP.
     destruct (pexec fuel [] (p_pre p)) as [[[rho e0] o0]|] eqn:E0; [|discriminate].
     destruct o0; try discriminate.
-    set (gs := snd (trm false 0 true false [] (p_pre p))) in *.
-    assert (HND : NoDup (map g_name gs)) by (apply trt_nodup).
+    set (gsS := snd (trm false 0 true false [] (p_pre p))) in *.
+    (* the globals the main-loop body declares are initialised (to their default values) before setup() as well *)
+    set (gsL := match p_main p with Some body => snd (trm true (tmpc s1) true true D body) | None => [] end).
+    set (gs := gsS ++ gsL).
+    assert (HLd : forall g, In g gsL -> g_init g = XDefault (g_ty g) /\ tmem (g_name g) (map fst D) = false).
+    { unfold gsL. destruct (p_main p) as [body|]; [|intros g []]. intros g Hg. split; [eapply trl_default; exact Hg|eapply trm_fresh; exact Hg]. }
+    assert (HND : NoDup (map g_name gs)).
+    { unfold gs. rewrite map_app. apply NoDup_app'.
+      - apply trt_nodup.
+      - unfold gsL. destruct (p_main p) as [body|]; [apply trl_nodup|constructor].
+      - intros x Hx Hx'. apply in_map_iff in Hx as (g & <- & Hg). apply in_map_iff in Hx' as (g' & E' & Hg').
+        pose proof (trt_names_in false (p_pre p) _ 0 [] [] D g G1 Hg) as H1.
+        destruct (HLd g' Hg') as [_ H2]. rewrite E' in H2. congruence. }
     assert (Han0 : incl (anns_in (p_pre p)) (prog_anns p)).
     { unfold prog_anns. apply incl_appl. apply incl_refl. }
     assert (Hau0 : incl (augs_in (p_pre p)) (prog_augs p)).
     { unfold prog_augs. apply incl_appl, incl_refl. }
+    pose proof (pend_init gs HND) as HPi.
     destruct (sim_all sem augsem info p Hfacts Hinfo fuel (p_pre p) false 0 true false _ [] [] D [] (rev (map bind gs)) rho e0 ONormal
-                eq_refl G1 Han0 Hau0 NT_nil (Rel_nil _) (pend_init gs HND) E0)
+                eq_refl G1 Han0 Hau0 NT_nil (Rel_nil _) (Pend_app_l gsS gsL _ HPi) E0)
       as (loc0 & sg1 & F1 & C1 & Fr1 & _ & Hl0 & N1).
     pose proof (g_block_NT _ _ _ _ _ _ G1 NT_nil) as HNTD.
-    destruct (N1 eq_refl) as [R1 CO]. fold gs in CO.
+    destruct (N1 eq_refl) as [R1 CO]. fold gsS in CO.
     apply (Rel_untmps _ _ _ _ _ HNTD (Hl0 eq_refl)) in R1.
-    pose proof (init_ok gs CO []) as HI. rewrite app_nil_r in HI.
+    assert (COg : ConstsOk sem info gs).
+    { unfold gs. apply Forall_app. split; [exact CO|]. apply Forall_forall. intros g Hg.
+      destruct (HLd g Hg) as [Hd _]. unfold const_ok. rewrite Hd. reflexivity. }
+    pose proof (init_ok gs COg []) as HI. rewrite app_nil_r in HI.
     rewrite <- S1 in C1.
+    assert (HPL : Pend sem gsL sg1).
+    { eapply Pend_default_frame; [|exact (Pend_app_r gsS gsL _ HPi)|exact Fr1]. intros g Hg. apply (HLd g Hg). }
     destruct (p_main p) as [body|] eqn:Em.
     - apply andb_true_iff in HGd as [HNT HGd].
       destruct (g_block (bsize body) true D [] body) as [D2|] eqn:G2; [|discriminate].
-      destruct (tr_block true (bsize body) false 1 s1 body) as [[loop s2]|] eqn:T2; [|discriminate].
-      destruct (tr_block_simple true _ _ false true true 1%nat _ _ _ _ _ _ _ eq_refl eq_refl HNT G2 S3 T2) as (U1 & U2 & U3 & _).
+      destruct (tr_block true (bsize body) true 1 s1 body) as [[loop s2]|] eqn:T2; [|discriminate].
+      destruct (tr_block_simple true _ _ true true true 1%nat _ _ _ _ _ _ _ eq_refl eq_refl (fun _ => eq_refl) HNT G2 S3 T2) as (U1 & U2 & U3 & _).
       change (rt true 1) with true in U1, U2.
-      cbn [trm fst snd] in U1, U2. rewrite app_nil_r in U2.
       inversion HT; subst c. clear HT.
       destruct (ppasses sem augsem fuel n rho body) as [e1|] eqn:E1; [|discriminate]. inversion HP; subst tr.
       assert (Han1 : incl (anns_in body) (prog_anns p)).
       { unfold prog_anns. rewrite Em. apply incl_appr, incl_refl. }
       assert (Hau1 : incl (augs_in body) (prog_augs p)).
       { unfold prog_augs. rewrite Em. apply incl_appr, incl_refl. }
-      destruct (passes_sim fuel body D _ D2 (tmpc s1) HNTD HNT G2 Han1 Hau1 n rho sg1 e1 R1 E1) as (F2 & C2).
+      destruct (passes_sim fuel body D _ D2 (tmpc s1) HNTD HNT G2 Han1 Hau1 n rho sg1 e1 R1 HPL E1) as (F2 & C2).
       exists (Nat.max F1 F2). intros F' HF'. unfold cprog_exec. cbn [c_globals c_setup c_loop].
-      rewrite U2, S2. fold gs. rewrite HI. rewrite C1 by lia. cbn [oc]. rewrite (lastn_app_r (length (rev (map bind gs))) loc0 sg1) by (eapply Fr_length; eauto).
+      rewrite U2, S2. fold gsS. change (snd (trm true (tmpc s1) true true D body)) with gsL. fold gs.
+      rewrite HI. rewrite C1 by lia. cbn [oc]. rewrite (lastn_app_r (length (rev (map bind gs))) loc0 sg1) by (eapply Fr_length; eauto).
       rewrite U1. rewrite C2 by lia. reflexivity.
     - inversion HT; subst c. clear HT. inversion HP; subst tr.
       exists F1. intros F' HF'. unfold cprog_exec. cbn [c_globals c_setup c_loop].
-      rewrite S2. fold gs. rewrite HI. rewrite C1 by lia. reflexivity.
+      rewrite S2. fold gsS. replace gsS with gs by (unfold gs, gsL; apply app_nil_r).
+      rewrite HI. rewrite C1 by lia. reflexivity.
   Qed.
 End Top.
 
